@@ -90,7 +90,8 @@ def R_measure(
 
     # updating association
     active, measurement = False, {"R_measure": nan}
-    if regression.rsquared and regression.rsquared >= 0:
+    # (rounding takes a null R² to a tiny positive or negative number: undefined in both cases)
+    if regression.rsquared and regression.rsquared > 1e-12:
         r_measure = sqrt(regression.rsquared)
         measurement = {"R_measure": r_measure}
 
